@@ -9,7 +9,7 @@ Definition dec_l0 (x : sx) : l0hdr :=
        (map (fun p => (asN (nthx 0 p), asN (nthx 1 p))) (asL (nthx 5 x))).
 
 (** input  [ps; maxSyncWALBytes; dbpages; pos; last L0 (off size s1 s2 commit ((pg dig)...));
-            syncedToWALEnd; walPresent; wal; fdigPresent; fdig]
+            syncedToWALEnd; walPresent; wal; fdigPresent; fdig; lastSyncedWALOffset]
     output [0] no file (skip) | [1; off; size; s1; s2; commit; pgnos] | [2] error *)
 Definition db_sync_step (x : sx) : sx :=
   let ps := asN (nthx 0 x) in
@@ -20,7 +20,8 @@ Definition db_sync_step (x : sx) : sx :=
   let toEnd := asB (nthx 5 x) in
   let wal := if asB (nthx 6 x) then Some (asNs (nthx 7 x)) else None in
   let fdig := if asB (nthx 8 x) then Some (asN (nthx 9 x)) else None in
-  match verify ps pos last toEnd wal fdig with
+  let lastOff := asN (nthx 10 x) in
+  match verify ps pos last toEnd lastOff wal fdig with
   | VErr => SL [sxN 2]
   | VOk info =>
       match wal with
